@@ -391,6 +391,9 @@ func scenarios(tier string, seed int64) []scenario {
 			out = append(out, scenario{Kind: "copy-tcp", Sub: i, Mode: "half-close", Clients: r.PickI([]int{1, 2}), Cut: -1})
 		}
 		out = append(out, scenario{Kind: "copy-udp", Sub: i, Clients: 1, Cut: -1})
+		if i%10 == 0 {
+			out = append(out, scenario{Kind: "copy-both", Sub: i, Clients: 1, Cut: (i / 10) % 2})
+		}
 		out = append(out, scenario{Kind: "dns", Sub: i, Clients: 1, Cut: -1})
 	}
 	for i := 0; i < ns; i++ {
@@ -417,6 +420,14 @@ type env struct {
 	sb    *sshBackend
 	decoy *tcpBackend
 	seed  int64
+	// one forward director shared by a copy service that listens on tcp and udp: its two backends have the same
+	// port number (a tcp listener and a udp socket)
+	tb2 *tcpBackend
+	ub2 *udpBackend
+	// port/backend overrides used by the copy-both scenarios
+	tcpPort, udpPort int
+	tbCur            *tcpBackend
+	ubCur            *udpBackend
 }
 
 type obs struct {
@@ -450,6 +461,17 @@ func setup(seed int64) (*env, error) {
 	_, priv, _ := ed25519.GenerateKey(rand.Reader)
 	signer, _ := ssh.NewSignerFromKey(priv)
 	e.sb = &sshBackend{l: listenTCP(), signer: signer, accept: func(u, p string) bool { return strings.HasPrefix(p, "ok-") }}
+	for try := 0; try < 50 && e.ub2 == nil; try++ {
+		l := listenTCP()
+		uc2, err := net.ListenUDP("udp", &net.UDPAddr{IP: net.ParseIP("127.0.0.1"), Port: l.Addr().(*net.TCPAddr).Port})
+		if err != nil {
+			l.Close()
+			continue
+		}
+		e.tb2, e.ub2 = &tcpBackend{l: l}, &udpBackend{c: uc2}
+		go e.tb2.serve()
+		go e.ub2.serve()
+	}
 	go e.hb.serve()
 	go e.tb.serve()
 	go e.decoy.serve()
@@ -463,6 +485,10 @@ func setup(seed int64) (*env, error) {
 	cfg += dir("dhttp", e.hb.l.Addr()) + dir("dtcp", e.tb.l.Addr()) + dir("dudp", e.ub.c.LocalAddr()) + dir("ddns", e.db.c.LocalAddr()) + dir("dssh", e.sb.l.Addr())
 	svc := func(name, typ, d, port string) string {
 		return fmt.Sprintf("[service.%s]\ntype=%q\ndirector=%q\n[[port]]\nport=%q\nservices=[%q]\n", name, typ, d, port, name)
+	}
+	if e.ub2 != nil {
+		cfg += dir("dboth", e.tb2.l.Addr())
+		cfg += "[service.cpb]\ntype=\"copy\"\ndirector=\"dboth\"\n[[port]]\nports=[\"tcp/9100\",\"udp/9100\"]\nservices=[\"cpb\"]\n"
 	}
 	cfg += svc("hp", "http-proxy", "dhttp", "tcp/8080") + svc("cp", "copy", "dtcp", "tcp/9000") + svc("cpu", "copy", "dudp", "udp/9001") + svc("dp", "dns-proxy", "ddns", "udp/53") + svc("sp", "ssh-proxy", "dssh", "tcp/2222")
 	srv, err := lab.Start(cfg)
@@ -682,9 +708,13 @@ func (e *env) runHTTP(sc scenario, ob *obs) {
 }
 
 func (e *env) runCopyTCP(sc scenario, ob *obs) {
-	e.tb.mu.Lock()
-	base := len(e.tb.got)
-	e.tb.mu.Unlock()
+	tb, tport := e.tb, 9000
+	if e.tbCur != nil {
+		tb, tport = e.tbCur, e.tcpPort
+	}
+	tb.mu.Lock()
+	base := len(tb.got)
+	tb.mu.Unlock()
 	var wg sync.WaitGroup
 	var omu sync.Mutex
 	var sent [][]byte
@@ -704,7 +734,7 @@ func (e *env) runCopyTCP(sc scenario, ob *obs) {
 		go func(ci int, data []byte) {
 			defer wg.Done()
 			ip, port := nextAddr()
-			cc := e.srv.L.DialTCP(lab.TCPAddr("10.0.0.1", 9000), lab.TCPAddr(ip, port))
+			cc := e.srv.L.DialTCP(lab.TCPAddr("10.0.0.1", tport), lab.TCPAddr(ip, port))
 			cl := lab.NewClient(cc)
 			defer cl.Close()
 			cl.SendCuts(data, gen.Cuts(core.NewRng(e.seed, "C15/copycuts", sc.Sub*10+ci), len(data), 2), 3*time.Second)
@@ -726,12 +756,12 @@ func (e *env) runCopyTCP(sc scenario, ob *obs) {
 	}
 	wg.Wait()
 	time.Sleep(5 * time.Millisecond)
-	e.tb.mu.Lock()
-	defer e.tb.mu.Unlock()
+	tb.mu.Lock()
+	defer tb.mu.Unlock()
 	var recv [][]byte
-	for i := base; i < len(e.tb.got); i++ {
-		recv = append(recv, e.tb.got[i])
-		ob.Backend += len(e.tb.got[i])
+	for i := base; i < len(tb.got); i++ {
+		recv = append(recv, tb.got[i])
+		ob.Backend += len(tb.got[i])
 	}
 	if len(recv) != len(sent) {
 		ob.bad("copy-tcp|connections", "%d client connections, %d backend connections", len(sent), len(recv))
@@ -749,6 +779,9 @@ func (e *env) runCopyTCP(sc scenario, ob *obs) {
 
 func (e *env) runUDP(sc scenario, ob *obs, dns bool) {
 	be, port := e.ub, 9001
+	if e.ubCur != nil && !dns {
+		be, port = e.ubCur, e.udpPort
+	}
 	var pl []byte
 	r := core.NewRng(e.seed, "C15/udp", sc.Sub)
 	var id uint16
@@ -1035,7 +1068,12 @@ func (prop) Child(b core.Batch, o *core.Obs) {
 		}
 		return 0
 	}
-	o.EmitX("backends", map[string]int{"http": portOf(e.hb.l.Addr()), "tcp": portOf(e.tb.l.Addr()), "udp": portOf(e.ub.c.LocalAddr()), "dns": portOf(e.db.c.LocalAddr()), "ssh": portOf(e.sb.l.Addr()), "decoy": portOf(e.decoy.l.Addr())})
+	o.EmitX("backends", map[string]int{"http": portOf(e.hb.l.Addr()), "tcp": portOf(e.tb.l.Addr()), "udp": portOf(e.ub.c.LocalAddr()), "dns": portOf(e.db.c.LocalAddr()), "ssh": portOf(e.sb.l.Addr()), "decoy": portOf(e.decoy.l.Addr()), "both": func() int {
+		if e.tb2 != nil {
+			return portOf(e.tb2.l.Addr())
+		}
+		return 0
+	}()})
 	for k := b.From; k < to; k++ {
 		sc := all[p.Off+k]
 		o.Begin(k)
@@ -1047,6 +1085,20 @@ func (prop) Child(b core.Batch, o *core.Obs) {
 			e.runCopyTCP(sc, &ob)
 		case "copy-udp":
 			e.runUDP(sc, &ob, false)
+		case "copy-both":
+			// one director instance, both transports, in the scenario's order (Cut = 0: udp first, 1: tcp first)
+			if e.ub2 == nil {
+				break
+			}
+			e.tbCur, e.ubCur, e.tcpPort, e.udpPort = e.tb2, e.ub2, 9100, 9100
+			for step := 0; step < 4; step++ {
+				if (step+sc.Cut)%2 == 0 {
+					e.runUDP(sc, &ob, false)
+				} else {
+					e.runCopyTCP(sc, &ob)
+				}
+			}
+			e.tbCur, e.ubCur = nil, nil
 		case "dns":
 			e.runUDP(sc, &ob, true)
 		case "ssh":
